@@ -1,0 +1,168 @@
+//go:build verif
+
+package api
+
+import (
+	"encoding/json"
+	"net/http"
+	"net/http/httptest"
+	"path"
+	"sort"
+	"strings"
+	"testing"
+
+	"github.com/gotid/god/api/httpx"
+	"github.com/gotid/god/api/pathvar"
+	"github.com/gotid/god/api/router"
+	"github.com/gotid/god/internal/verifdrv"
+	"github.com/gotid/god/lib/logx"
+)
+
+// C03 through the engine: route groups are added the way applications add them (engine.addRoutes
+// or Server.AddRoutes, optionally WithPrefix), bound with bindRoutes on a fresh router, and the
+// requests are then served by that router.
+
+type verifC03Route struct {
+	M string `json:"m"`
+	P string `json:"p"`
+}
+
+type verifC03Group struct {
+	Prefix *string         `json:"prefix"` // nil: no WithPrefix option
+	Routes []verifC03Route `json:"routes"`
+}
+
+type verifC03Case struct {
+	Kind   string          `json:"kind"`
+	Via    string          `json:"via"` // engine | server
+	Groups []verifC03Group `json:"groups"`
+	Reqs   []verifC03Route `json:"reqs"`
+}
+
+type verifC03Call struct {
+	M   string `json:"m"`
+	P   string `json:"p"`
+	Err string `json:"err"`
+}
+
+type verifC03Res struct {
+	Clean  string      `json:"clean"`
+	Status int         `json:"status"`
+	Hids   []int       `json:"hids"`
+	Vars   [][2]string `json:"vars"`
+	Allow  []string    `json:"allow"`
+	NF     int         `json:"nf"`
+}
+
+// verifC03Router records what reaches Router.Handle and what it answers.
+type verifC03Router struct {
+	httpx.Router
+	calls *[]verifC03Call
+}
+
+func (r verifC03Router) Handle(method, reqPath string, h http.Handler) error {
+	err := r.Router.Handle(method, reqPath, h)
+	*r.calls = append(*r.calls, verifC03Call{M: method, P: reqPath, Err: verifC03Err(err)})
+	return err
+}
+
+func verifC03Err(err error) string {
+	switch {
+	case err == nil:
+		return ""
+	case err == router.ErrInvalidMethod:
+		return "method"
+	case err == router.ErrInvalidPath:
+		return "path"
+	case strings.HasPrefix(err.Error(), "重复的路由条目"):
+		return "dup"
+	case strings.HasPrefix(err.Error(), "重复的斜线"):
+		return "dupslash"
+	case strings.HasPrefix(err.Error(), "路径必须以 / 开始"):
+		return "notfromroot"
+	default:
+		return "other:" + err.Error()
+	}
+}
+
+func TestVerifDriverC03(t *testing.T) {
+	logx.Disable()
+	verifdrv.Run(t, func(raw json.RawMessage) any {
+		var c verifC03Case
+		if err := json.Unmarshal(raw, &c); err != nil {
+			return map[string]any{"error": err.Error()}
+		}
+		var hids []int
+		var vars map[string]string
+		conf := Config{Timeout: 60000, MaxBytes: 1 << 20}
+		var ng *engine
+		var rt httpx.Router
+		var srv *Server
+		if c.Via == "server" {
+			var err error
+			if srv, err = NewServer(conf); err != nil {
+				return map[string]any{"error": "NewServer: " + err.Error()}
+			}
+			ng, rt = srv.ng, srv.router
+		} else {
+			ng, rt = newEngine(conf), router.NewRouter()
+		}
+		id := 0
+		for _, g := range c.Groups {
+			rs := make([]Route, len(g.Routes))
+			for i, r := range g.Routes {
+				hid := id
+				id++
+				rs[i] = Route{Method: r.M, Path: r.P, Handler: func(w http.ResponseWriter, r *http.Request) {
+					hids = append(hids, hid)
+					vars = pathvar.Vars(r)
+				}}
+			}
+			switch {
+			case srv != nil && g.Prefix != nil:
+				srv.AddRoutes(rs, WithPrefix(*g.Prefix))
+			case srv != nil:
+				srv.AddRoutes(rs)
+			default:
+				fr := featuredRoutes{routes: rs}
+				if g.Prefix != nil {
+					WithPrefix(*g.Prefix)(&fr)
+				}
+				ng.addRoutes(fr)
+			}
+		}
+		paths := []string{}
+		for _, fr := range ng.routes {
+			for _, r := range fr.routes {
+				paths = append(paths, r.Path)
+			}
+		}
+		calls := []verifC03Call{}
+		berr := verifC03Err(ng.bindRoutes(verifC03Router{Router: rt, calls: &calls}))
+
+		res := make([]verifC03Res, len(c.Reqs))
+		for i, rq := range c.Reqs {
+			hids, vars = nil, nil
+			r := httptest.NewRequest(http.MethodGet, "/", nil)
+			r.Method = rq.M
+			r.URL.Path = rq.P
+			rec := httptest.NewRecorder()
+			status := 0
+			if panicked, _ := verifdrv.Catch(func() { rt.ServeHTTP(rec, r) }); !panicked {
+				status = rec.Code
+			}
+			o := verifC03Res{Clean: path.Clean(rq.P), Status: status, Hids: append([]int{}, hids...),
+				Vars: [][2]string{}, Allow: []string{}}
+			for k, v := range vars {
+				o.Vars = append(o.Vars, [2]string{k, v})
+			}
+			sort.Slice(o.Vars, func(a, b int) bool { return o.Vars[a][0] < o.Vars[b][0] })
+			for _, h := range rec.Header().Values("Allow") {
+				o.Allow = append(o.Allow, strings.Split(h, ", ")...)
+			}
+			sort.Strings(o.Allow)
+			res[i] = o
+		}
+		return map[string]any{"err": berr, "paths": paths, "calls": calls, "res": res}
+	})
+}
